@@ -277,6 +277,10 @@ pub fn builder_of<W>(w: W, cfg: &Cfg) -> MuxerBuilder<W> {
 }
 
 fn settings_of<W>(mut b: MuxerBuilder<W>, cfg: &Cfg) -> MuxerBuilder<W> {
+    if (cfg.path & 8) != 0 && cfg.meta {
+        // decoy: an earlier with_metadata() call whose every field differs; the later call replaces it
+        b = b.with_metadata(Metadata::new().with_title("decoy title").with_creation_time(86_400).with_language("zzz"));
+    }
     if let Some(m) = metadata_of(cfg) {
         b = b.with_metadata(m);
     }
